@@ -17,6 +17,7 @@ import GoZero.C13.ProofsJoin
 import GoZero.C13.ProofsPub
 import GoZero.C13.ProofsBuild
 import GoZero.C13.ProofsMulti
+import GoZero.C13.ProofsLife
 namespace GoZero.C13
 open Spec
 
@@ -298,13 +299,11 @@ theorem revoked_value_disappears (evs : List Ev) (hv : ValidHist Fix.fixed [] ev
     exact ⟨k, by rw [regrun_append_dels]; simpa [hm] using hk⟩
 
 /-
-Full statement (not proven this round; the harness checks it on the real code as `view-differs-from-live-publishers`):
-for every well-formed history of publisher operations (KeepAlive / Pause / Resume / Stop / keep-alive channel closed)
-over any number of publishers with pairwise distinct fixed ids that differ from every lease, and leases that etcd
-never grants twice, the store is exactly {fullKey p ↦ value p | p registered}, and an ordinary subscriber's Values()
-is exactly the set of values of the registered publishers.  Proven: the per-operation facts above and their
-composition with `view_equals_registry` for one registration / one revocation after an arbitrary history
-(`publisher_cycle_partial`).
+Round 5c: the full-history statement for ONE publisher is `publisher_full_history` below (every operation sequence, every
+etcd call free to fail).  What is still not a theorem: several publishers at once (pairwise distinct fixed ids that differ
+from every lease) together with the subscriber's view over the whole history — the harness checks it on the real code as
+`view-differs-from-live-publishers`.  `publisher_cycle_partial` composes one registration / one revocation after an arbitrary
+history with `view_equals_registry`.
 -/
 theorem publisher_cycle_partial (evs : List Ev) (hv : ValidHist Fix.fixed [] evs) (p : Pub) (lease : Nat)
     (hother : ∀ k, Reg.run evs k ≠ some p.value) :
@@ -320,6 +319,52 @@ theorem publisher_cycle_partial (evs : List Ev) (hv : ValidHist Fix.fixed [] evs
     simp [Reg.run, registerEvents, List.foldl_append, Reg.apply, Reg.put, hne]
   rw [this] at hr
   exact hother k hr
+
+/-- **The whole life of a publisher (round 5c; replaces the per-cycle statement `publisher_cycle_partial`).**  For EVERY
+sequence of KeepAlive / Pause / Resume / Stop / loss of the keep-alive stream / lease expiry, with every etcd call of
+every attempt free to fail (Grant, Put, KeepAlive, Revoke; any number of failed attempts inside doKeepAlive), and
+leases granted once each:
+* whenever the publisher runs (registered, not paused, not stopped) etcd holds its value under its full key
+  `<key>/<id or lease>`, attached to its CURRENT lease;
+* at quiescence — once the leases nobody renews have expired — etcd holds a key of the publisher IF AND ONLY IF it
+  runs, and then exactly that one key, value and lease (nothing a failed KeepAlive / Revoke left behind survives). -/
+theorem publisher_full_history (id v next : Nat) (ops : List POp) :
+    let st := PLife.run { pub := { id := id, value := v }, next := next } ops
+    (st.running = true → st.store.get st.pub.fullKey = some (v, st.pub.lease) ∧ st.pub.fullKey = pubKeyId id st.pub.lease)
+    ∧ (∀ k x l, (st.step .expire).store.get k = some (x, l)
+        ↔ st.running = true ∧ k = st.pub.fullKey ∧ x = v ∧ l = st.pub.lease) := by
+  intro st
+  have h0 : PInv id v { pub := { id := id, value := v }, next := next } :=
+    ⟨by simp [Map.keys], by simp, ⟨rfl, rfl⟩, by simp⟩
+  have h : PInv id v st := run_inv id v ops _ h0
+  have h' : PInv id v (st.step .expire) := step_inv id v st .expire h
+  refine ⟨fun hr => ?_, fun k x l => ?_⟩
+  · obtain ⟨_, b, c, _⟩ := h.live hr
+    refine ⟨?_, b⟩
+    have := (Map.mem_iff_get _ h.nodup st.pub.fullKey (st.pub.value, st.pub.lease)).mp c
+    rw [h.idv.2] at this
+    exact this
+  · have hs : (st.step .expire).store = storeExpire st.store (if st.running then [st.pub.lease] else []) := rfl
+    rw [← Map.mem_iff_get _ h'.nodup]
+    constructor
+    · intro hm
+      rw [hs] at hm
+      obtain ⟨hm1, hm2⟩ := List.mem_filter.mp hm
+      cases hr : st.running with
+      | false => simp [hr] at hm2
+      | true =>
+        simp [hr] at hm2
+        obtain ⟨_, _, _, d⟩ := h.live hr
+        have := d _ hm1 hm2
+        simp only [Pub.entry, Prod.mk.injEq] at this
+        exact ⟨rfl, this.1, by rw [this.2.1, h.idv.2], this.2.2⟩
+    · rintro ⟨hr, rfl, rfl, rfl⟩
+      obtain ⟨_, _, c, _⟩ := h.live hr
+      rw [hs]
+      refine List.mem_filter.mpr ⟨?_, by simp [hr]⟩
+      have := c
+      simp only [Pub.entry, h.idv.2] at this
+      exact this
 
 /-! ### Resolver: Build against the watch goroutine (BuildConc.lean) -/
 
@@ -506,6 +551,60 @@ theorem failed_attempt_effects (p : Pub) (s : Store) (l : Nat) :
     ∧ (p.attempt s (.kaErr l)).2 = storePut s (p.register l)
     ∧ (p.attempt s .grantErr).1.lease = 0 ∧ (p.attempt s (.putErr l)).1.lease = l := ⟨rfl, rfl, rfl, rfl, rfl⟩
 
+/-! ### round 5c: Unmonitor / reopen, the retry loop of `load`, watch revisions -/
+
+/-- **Closing one subscriber leaves the others alone.**  When listener `i` is unmonitored (Subscriber.Close), every
+other listener `j` of the same watcher holds, after any later deliveries, exactly the container it would hold had `i`
+stayed — hence the same `Values()`. -/
+theorem unmonitor_leaves_the_others_unchanged (ls : Listeners) (i j : Nat) (h : j ≠ i) (evs : List LEv) :
+    ((ls.unmonitor i).deliver Fix.fixed evs).get j = (ls.deliver Fix.fixed evs).get j
+    ∧ ((ls.unmonitor i).deliver Fix.fixed evs).get i = none := by
+  refine ⟨listeners_get_unmonitor_deliver Fix.fixed ls i j h evs, ?_⟩
+  unfold Listeners.unmonitor Listeners.deliver Listeners.get
+  rw [find_map_snd _ (fun c => evs.foldl (applyL Fix.fixed) c)]
+  have : (ls.filter (fun p => p.1 ≠ i)).find? (fun p => p.1 = i) = none := by
+    rw [List.find?_eq_none]
+    intro p hp
+    simpa using (List.mem_filter.mp hp).2
+  rw [this]; rfl
+
+/-- **A reopened key shows the registry.**  After the last listener left, the watcher is deleted; a new subscriber on
+the key starts from a fresh container (whatever the cluster held for the key before, and whatever the other keys
+hold): after its first load and any later history of the cluster it shows the registry of its key. -/
+theorem reopened_key_shows_registry (m : MState) (evs : List MEv) (s : Nat) (hm : MValid evs)
+    (hv : ValidHist Fix.fixed [] (proj s evs)) :
+    ∀ v, v ∈ view (mrun Fix.fixed true (upd m s { cont := Container.new false }) evs s).cont
+      ↔ (Reg.run (proj s evs)).Shows v := by
+  have : mrun Fix.fixed true (upd m s { cont := Container.new false }) evs s = run Fix.fixed false (proj s evs) := by
+    rw [mrun_proj Fix.fixed evs _ s hm]; simp [run, upd]
+  rw [this]
+  exact (view_equals_registry _ hv).1
+
+/-- **`load` installs the snapshot of the first successful Get** (the `break` leaves the retry loop only after a Get
+without error: Tie `tie_loadRetries`; the cool-down sleeps in between), however many Gets fail first — and the
+subscriber then shows that snapshot's registry.  Witness: a loop that ends at the first error installs nothing. -/
+theorem load_installs_the_first_successful_snapshot (fails rest : List (Option (List (Nat × Nat))))
+    (kvs adds : List (Nat × Nat)) (rems : List Nat) (hf : ∀ r ∈ fails, r = none)
+    (hv : ValidHist Fix.fixed [] [.reload kvs adds rems]) :
+    loadLoop (fails ++ some kvs :: rest) = some kvs
+    ∧ (∀ v, v ∈ view (run Fix.fixed false [.reload kvs adds rems]).cont ↔ (Reg.ofSnapshot kvs).Shows v)
+    ∧ loadLoopNoRetry (none :: some kvs :: rest) = none := by
+  refine ⟨loadLoop_installs_first_success fails kvs rest hf, fun v => ?_, rfl⟩
+  rw [(view_equals_registry _ hv).1 v]
+  rfl
+
+/-- **Watch revisions.**  After a load that returned revision `rev` (the log's length at that moment) the watch asks
+for `rev + 1` (`watchFrom`: Tie `tie_watchArgs`): it is told exactly the events after the snapshot — none twice, none
+skipped.  Witnesses for the two off-by-one variants: `WithRev(rev)` replays the last event of the snapshot again,
+`WithRev(rev + 2)` skips the first event after it. -/
+theorem watch_resumes_right_after_the_snapshot (before after : List Ev) (h : before ≠ []) :
+    replayFrom (before ++ after) (watchFrom before.length) = after
+    ∧ replayFrom ([Ev.put 1 5] ++ [Ev.del 1]) 1 = [.put 1 5, .del 1]
+    ∧ replayFrom ([Ev.put 1 5] ++ [Ev.del 1, .put 2 6]) 3 = [.put 2 6] := by
+  refine ⟨?_, rfl, rfl⟩
+  have hl : before.length ≠ 0 := by simpa using h
+  simp [replayFrom, watchFrom, hl]
+
 /-! ### Non-vacuity -/
 
 /-- a valid history with update in place, a shared value, a replayed put, and a reload that changes one key,
@@ -579,6 +678,16 @@ example : MValid [.on 0 (.put 1 5), .on 1 (.put 2 6), .reconnect [1, 0] (fun k =
 example : proj 0 [.on 0 (.put 1 5), .on 1 (.put 2 6), .reconnect [1, 0] (fun k => if k = 0 then .reload [] [] [1] else .reload [(2, 6)] [] [])]
     = [.put 1 5, .reload [] [] [1]] := by simp [proj]
 
+/-- a publisher's life, non-vacuity: KeepAlive; the stream is lost and the first re-registration fails at KeepAlive
+(its key 11 stays behind), the second succeeds (lease 12); Pause with a failing Revoke (key 12 stays); expiry removes
+both leftovers; Resume after a failed Grant registers under lease 14 -/
+example : (PLife.run { pub := { id := 0, value := 40 }, next := 10 }
+    [.keepAlive .ok, .kaLoss true [.kaErr, .ok], .pause false]).store = [(11, (40, 11)), (12, (40, 12))] := by decide
+example : ((PLife.run { pub := { id := 0, value := 40 }, next := 10 }
+    [.keepAlive .ok, .kaLoss true [.kaErr, .ok], .pause false]).step .expire).store = [] := by decide
+example : (PLife.run { pub := { id := 0, value := 40 }, next := 10 }
+    [.keepAlive .ok, .kaLoss true [.kaErr, .ok], .pause false, .expire, .resume [.grantErr, .ok]]).store = [(14, (40, 14))] := by decide
+
 /-- re-registration, non-vacuity: Grant fails, Put fails (lease 104), KeepAlive fails (lease 105: the key 105 stays
 behind for a publisher without id), then success with lease 106 -/
 example : doKeepAlive true { id := 0, value := 40 } [] [.grantErr, .putErr 104, .kaErr 105, .ok 106]
@@ -587,5 +696,13 @@ example : doKeepAlive true { id := 0, value := 40 } [] [.grantErr, .putErr 104, 
 example : attemptsFor 1 1 1 104 = [.grantErr, .putErr 104, .kaErr 105, .ok 106] := by decide
 
 example : storeExpire [(105, (40, 105)), (106, (40, 106))] [106] = [(106, (40, 106))] := by decide
+
+/-- listeners, non-vacuity: listeners 1, 2, 3 on one watcher; 2 closes; a put and a delete are delivered -/
+example : ((Listeners.deliver Fix.fixed (Listeners.unmonitor [(1, Container.new false), (2, Container.new true), (3, Container.new false)] 2)
+    [.add 7 70, .add 8 80, .del 7]).get 3).map view = some [80] := by decide
+
+example : loadLoop [none, none, some [(1, 5)], none] = some [(1, 5)] := by decide
+
+example : replayFrom [.put 1 5, .del 1, .put 2 6] (watchFrom 2) = [.put 2 6] := rfl
 
 end GoZero.C13
